@@ -82,13 +82,20 @@ def run_case(case, rng):
     state = dict(ep_steps=0, prev=None, episodes=0)
     init_support = {s for s, p in sp.init}
 
-    class Probe(RMAXEventListener):
+    from msdm.algorithms import rmax as rmax_mod
+
+    class Probe(rmax_mod.EpisodeRewardEventListener):
+        """extends R-MAX's DEFAULT listener (event_listener_results stays the library's own) and adds the probes"""
         def __init__(self):
-            pass
+            rmax_mod.EpisodeRewardEventListener.__init__(self)
+            state["ep_reward_sums"] = []
+            state["ep_acc"] = 0.0
 
         def end_of_timestep(self, lv):
+            rmax_mod.EpisodeRewardEventListener.end_of_timestep(self, lv)
             if state.get("warmup"):
                 return
+            state["ep_acc"] = state.get("ep_acc", 0.0) + lv["r"]
             s, a, r, ns = lv["s"], lv["a"], lv["r"], lv["ns"]
             case.count("steps_validated")
             state["ep_steps"] += 1
@@ -105,14 +112,14 @@ def run_case(case, rng):
             exp.append((s, a, r, ns))
 
         def end_of_episode(self, lv):
+            rmax_mod.EpisodeRewardEventListener.end_of_episode(self, lv)
             if state.get("warmup"):
                 return
             state["ep_steps"] = 0
             state["episodes"] += 1
+            state["ep_reward_sums"].append(state.get("ep_acc", 0.0))
+            state["ep_acc"] = 0.0
             case.count("episodes_observed")
-
-        def results(self):
-            return None
 
     learner = RMAX(episodes=episodes, rmax=rmax, num_transition_samples=m, bellman_convergence_diff=tolv,
                    seed=seed, event_listener_class=Probe)
@@ -135,6 +142,12 @@ def run_case(case, rng):
         res = case.call("RMAX.train_on", learner.train_on, mdp)
     if res is case.FAIL:
         return
+    er = case.call("event_listener_results.episode_rewards", lambda: list(res.event_listener_results.episode_rewards))
+    if er is not case.FAIL:
+        want_er = state.get("ep_reward_sums", [])
+        case.count("episode_reward_lists_compared")
+        case.check(len(er) == len(want_er) and all(abs(float(x) - float(y)) <= 1e-9 * max(1.0, abs(y)) for x, y in zip(er, want_er)),
+                   "episode_rewards!=per-episode-sums-of-experienced-rewards", lambda: f"{er!r} vs {want_er!r}")
     Q = res.q_values
     opt = rmax * 1 / (1 - gamma)
     # shadow model from the first m samples of each pair
